@@ -1549,7 +1549,19 @@ class Mailbox:
         #     during any asyncio process where we want to guarantee writership.
         #
         assert self.mh_sequences_lock.locked()
-        self.mailbox.set_sequences({k: list(v) for k, v in seqs.items()})
+
+        # An MH agent may have delivered messages since we last looked at
+        # the folder. What it recorded for them in `.mh_sequences` (they are
+        # in `unseen`) is not ours to overwrite: keep the entries of every
+        # message we neither know nor mention. Our next resync picks them up.
+        #
+        ours = set(self.msg_keys).union(*seqs.values())
+        to_write = {k: set(v) for k, v in seqs.items()}
+        for name, keys in self.mailbox.get_sequences().items():
+            not_ours = set(keys) - ours
+            if not_ours:
+                to_write.setdefault(name, set()).update(not_ours)
+        self.mailbox.set_sequences({k: list(v) for k, v in to_write.items()})
 
     ##################################################################
     #
